@@ -1229,14 +1229,16 @@ class Stack(list):
         :return bool:
         """
         # TODO: Check, add to Script/Transaction and add unittests
-        if not tx_locktime:
+        if tx_locktime is None:
             return False
         if sequence == 0xffffffff:
+            return False
+        if len(self[-1]) > 5:
             return False
         locktime = decode_num(self[-1])
         if locktime < 0:
             return False
-        if locktime < 50000000 < tx_locktime or locktime > 50000000 > tx_locktime:
+        if (locktime < 500000000) != (tx_locktime < 500000000):
             return False
         if tx_locktime < locktime:
             return False
